@@ -119,6 +119,7 @@ def gen_spec(seed: int, profile: dict = None) -> dict:
     for i, r in enumerate(routes):
         r['program'] = P.gen_program(st.sub('prog', i), ex_type, pf.get('program'))
     if pf.get('hp'):
+        spec['_hp_partial'] = bool(pf.get('hp_partial'))
         gen_hp(spec, st)
     return spec
 
@@ -174,6 +175,10 @@ def gen_hp(spec, st):
                 hp[d['name']] = st.randint(d['min'], d['max'], 'xhp', j)
             else:
                 hp[d['name']] = round(d['min'] + (d['max'] - d['min']) * st.u('xhp', j), 6)
+        if spec.get('_hp_partial') and len(hp) >= 2 and st.chance(0.5, 'xhp_partial'):
+            # a caller that overrides only some of the declared parameters
+            del hp[decl[st.randint(0, len(decl) - 1, 'xhp_drop')]['name']]
+            spec['hp_partial'] = True
         spec['hyperparameters'] = hp
 
 
